@@ -20,7 +20,7 @@ func TestC09(t *testing.T) {
 	mon.Main(t, mon.Check{
 		ID:    "C09",
 		Level: "exploration",
-		Rule:  "three case kinds. (W) random fault scenarios (as C01) with a wire-level window monitor per sender: a DATA/PING packet is fresh iff its seq equals freshCount mod (N+1); ACK/NACKs are applied to the monitor's window the moment the link hands them to the sender (the sender cannot know more), and at every fresh transmission freshCount-acked must be <= N; in the same callback the real queue is sampled through the hook (size<=N, base<S, top<S, S=N+1>N, both ends report the client's N). (B) blocking semantics on an idle clean link with latency L: N Sends issued at virtual instant t0 all return at t0, the (N+1)-th is still blocked after the bubble settles and returns exactly when the first ACK is delivered. (Q) the real queue's processACK/processNACK driven through the hook over every (base, top, seq) of every sequence space s in 2..24 (quick) / 2..64 (thorough) plus random triples up to s=255, against an independent modular-distance oracle. Non-trivial: W = at least one ACK/NACK was lost, duplicated or delayed and the window filled at least once; distinct = trace hash / (N,L) / s.",
+		Rule:  "three case kinds. (W) random fault scenarios (as C01) with a wire-level window monitor per sender: a DATA/PING packet is fresh iff its seq equals freshCount mod (N+1); ACK/NACKs are applied to the monitor's window the moment the link hands them to the sender (the sender cannot know more), and at every fresh transmission freshCount-acked must be <= N; in the same callback the real queue is sampled through the hook (size<=N, base<S, top<S, S=N+1>N, both ends report the client's N). (B) blocking semantics on an idle clean link with latency L: N Sends issued at virtual instant t0 all return at t0, the (N+1)-th is still blocked after the bubble settles and returns exactly when the first ACK is delivered. (Q) the real queue's processACK/processNACK driven through the hook over every (base, top, seq) of every sequence space s in 2..24 (quick) / 2..64 (thorough) plus random triples up to s=255, against an independent modular-distance oracle. One scenario in eight has one transport write fail with an error. At the API boundary: messages accepted by Send minus packets covered by the ACK/NACKs delivered so far must never exceed N. Non-trivial: W = at least one ACK/NACK was lost, duplicated or delayed and the window filled at least once; distinct = trace hash / (N,L) / s.",
 		Assumptions: []string{
 			"transport preserves per-direction order",
 			"the monitor applies an acknowledgement when it is delivered to the sender, so it can only under-estimate what is outstanding (sound, may miss)",
